@@ -38,6 +38,14 @@ pub enum Op {
     ClearTags,
     Maximize,
     Minimize,
+    /// `*loc = loc.clone()`
+    CloneSelf,
+    /// `loc.clone_from(&parsed locale)` (Clone::clone_from may re-use the destination's allocations)
+    CloneFrom(String),
+    /// `loc.id.clone_from(&parsed language identifier)`
+    CloneIdFrom(String),
+    /// `loc.id = std::mem::take(&mut loc.id)` round trip through Default / mem::replace
+    TakeId,
 }
 
 /// Result of one step, in a form comparable between library and model.
@@ -60,6 +68,7 @@ pub const VARIANTS: &[&str] = &["valencia", "VALENCIA", "1abc", "macos", "12345"
 pub const LANGS: &[&str] = &["en", "fr", "und", "UND", "Und", "EN", "zh", "ar", "sr", "abcde", "abcdefgh", "ABCDEF", "haw", "abcd", "e"];
 pub const SCRIPTS: &[&str] = &["Latn", "latn", "Cyrl", "Arab", "Hant", "Qqqq", "abc"];
 pub const REGIONS: &[&str] = &["US", "us", "GB", "TW", "001", "RS", "1", "USA"];
+pub const CLONE_SRC: &[&str] = &["de", "ca-valencia", "und", "sr-Cyrl-RS-zzzzz", "en-u-aaa-x-zz", "fr-t-en-h0-hybrid-u-ca-greg", "en-x-a-a", "ca-ES-1abc-macos-valencia-u-zzz-nu-latn", "en-Latn-US-valencia-t-en-k0-bbb-u-bbb-ca-aaa-x-bbb", "e", "en--US"];
 pub const TLANGS: &[&str] = &["en", "en-US", "und", "fr-Latn-CA-valencia", "zh-hant", "de-1996-1901", "abcdefgh-Latn-001", "abcde", "haw-US", "undef-1abc", "e", "en-"];
 
 fn sel(v: &'static [&'static str]) -> SBoxedStrategy<String> {
@@ -94,6 +103,13 @@ pub fn s_op() -> SBoxedStrategy<Op> {
         1 => Just(Op::Minimize),
     ]
     .sboxed();
+    let e = prop_oneof![
+        1 => Just(Op::CloneSelf),
+        1 => Just(Op::TakeId),
+        2 => prop_oneof![2 => sel(CLONE_SRC), 1 => crate::gen::s_ast().prop_map(|a| String::from_utf8_lossy(&a.render_plain()).to_string())].prop_map(Op::CloneFrom),
+        2 => sel_or(TLANGS, crate::gen::s_langid_bytes().prop_map(|b| String::from_utf8_lossy(&b).to_string()).sboxed()).prop_map(Op::CloneIdFrom),
+    ]
+    .sboxed();
     let b = prop_oneof![
         4 => (sel_or(KEYS, crate::gen::s_key()), vals()).prop_map(|(k, v)| Op::SetKeyword(k, v)),
         1 => proptest::sample::select(crate::gen::REAL_KEYWORDS.to_vec()).prop_map(|(k, v)| Op::SetKeyword(k.to_string(), v.iter().map(|x| x.to_string()).collect())),
@@ -123,7 +139,7 @@ pub fn s_op() -> SBoxedStrategy<Op> {
         1 => Just(Op::ClearTags),
     ]
     .sboxed();
-    prop_oneof![15 => a, 20 => b, 13 => c, 10 => d].sboxed()
+    prop_oneof![15 => a, 20 => b, 13 => c, 10 => d, 3 => e].sboxed()
 }
 
 /// The fixed operation alphabet for exhaustive short sequences.
@@ -160,6 +176,9 @@ pub fn op_alphabet() -> Vec<Op> {
         Op::RemoveTag(s("bbb")),
         Op::HasTag(s("a")),
         Op::ClearTags,
+        Op::CloneSelf,
+        Op::CloneIdFrom(s("ca-valencia")),
+        Op::CloneFrom(s("de-u-aaa-x-zz")),
     ]
 }
 
@@ -290,6 +309,30 @@ pub fn apply_lib(loc: &mut Locale, op: &Op) -> Out {
             {
                 Out::Unit
             }
+        }
+        Op::CloneSelf => {
+            let c = loc.clone();
+            *loc = c;
+            Out::Unit
+        }
+        Op::CloneFrom(t) => match Locale::from_bytes(t.as_bytes()) {
+            Ok(o) => {
+                loc.clone_from(&o);
+                Out::Unit
+            }
+            Err(_) => Out::ArgRejected,
+        },
+        Op::CloneIdFrom(t) => match LanguageIdentifier::from_bytes(t.as_bytes()) {
+            Ok(o) => {
+                loc.id.clone_from(&o);
+                Out::Unit
+            }
+            Err(_) => Out::ArgRejected,
+        },
+        Op::TakeId => {
+            let id = std::mem::take(&mut loc.id);
+            let old = std::mem::replace(&mut loc.id, id);
+            if old == LanguageIdentifier::default() { Out::Unit } else { Out::Bool(false) }
         }
     }
 }
@@ -508,6 +551,22 @@ pub fn apply_model(m: &mut LocaleModel, op: &Op, likely: Option<LikelyFn>, lib_a
             m.private.clear();
             Out::Unit
         }
+        Op::CloneSelf | Op::TakeId => Out::Unit,
+        // the source texts come from well-formed generators / a fixed pool: must-accept or must-reject
+        Op::CloneFrom(t) => match model::ref_locale(t.as_bytes()) {
+            model::Zone::MustAccept(m2, _) => {
+                *m = m2.without_true();
+                Out::Unit
+            }
+            _ => Out::ArgRejected,
+        },
+        Op::CloneIdFrom(t) => match model::ref_langid(t.as_bytes()) {
+            Ok(li) => {
+                m.id = li;
+                Out::Unit
+            }
+            Err(_) => Out::ArgRejected,
+        },
         Op::Maximize | Op::Minimize => {
             let Some(f) = likely else { return Out::Unit };
             match f(&m.id, matches!(op, Op::Maximize)) {
@@ -585,6 +644,10 @@ pub fn op_to_json(op: &Op) -> Value {
         Op::ClearTags => ("ClearTags", None, None),
         Op::Maximize => ("Maximize", None, None),
         Op::Minimize => ("Minimize", None, None),
+        Op::CloneSelf => ("CloneSelf", None, None),
+        Op::TakeId => ("TakeId", None, None),
+        Op::CloneFrom(k) => ("CloneFrom", Some(k.clone()), None),
+        Op::CloneIdFrom(k) => ("CloneIdFrom", Some(k.clone()), None),
     };
     json!({"op": name, "a": a, "v": v})
 }
@@ -622,6 +685,10 @@ pub fn op_from_json(j: &Value) -> Option<Op> {
         "ClearTags" => Op::ClearTags,
         "Maximize" => Op::Maximize,
         "Minimize" => Op::Minimize,
+        "CloneSelf" => Op::CloneSelf,
+        "TakeId" => Op::TakeId,
+        "CloneFrom" => Op::CloneFrom(a()?),
+        "CloneIdFrom" => Op::CloneIdFrom(a()?),
         _ => return None,
     })
 }
@@ -666,5 +733,9 @@ pub fn op_name(op: &Op) -> &'static str {
         Op::ClearTags => "ClearTags",
         Op::Maximize => "Maximize",
         Op::Minimize => "Minimize",
+        Op::CloneSelf => "CloneSelf",
+        Op::TakeId => "TakeId",
+        Op::CloneFrom(_) => "CloneFrom",
+        Op::CloneIdFrom(_) => "CloneIdFrom",
     }
 }
